@@ -643,6 +643,19 @@ def run(ctx):
             '</xs:sequence><xs:attribute name="a_or_b" type="xs:string"/></xs:extension></xs:complexContent></xs:complexType></xs:element></xs:schema>')
     for k, (oname, opts) in enumerate((("compound", {"compound_fields.enabled": True}), ("compound-frozen", {"compound_fields.enabled": True, "format.frozen": True}))):
         generation_case(ctx, "xsd", {"h.xsd": coll}, ["h.xsd"], oname, opts, None, traces, f"compound-name-collision-{k}", must_generate=True)
+    # enumerations over types whose members are rendered as constructor calls (Decimal, QName, XmlDate, XmlDuration...)
+    # in a module where nothing else mentions those types: the module still has to import them
+    enum_types = ('<xs:schema xmlns:xs="http://www.w3.org/2001/XMLSchema" targetNamespace="urn:h" xmlns:t="urn:h" elementFormDefault="qualified">'
+                  '<xs:simpleType name="Rate"><xs:restriction base="xs:decimal"><xs:enumeration value="0.5"/><xs:enumeration value="1.25"/></xs:restriction></xs:simpleType>'
+                  '<xs:simpleType name="Code"><xs:restriction base="xs:QName"><xs:enumeration value="t:Sender"/><xs:enumeration value="xs:int"/></xs:restriction></xs:simpleType>'
+                  '<xs:simpleType name="Day"><xs:restriction base="xs:date"><xs:enumeration value="2020-02-29"/></xs:restriction></xs:simpleType>'
+                  '<xs:simpleType name="Span"><xs:restriction base="xs:duration"><xs:enumeration value="P1D"/><xs:enumeration value="PT1H"/></xs:restriction></xs:simpleType>'
+                  '<xs:simpleType name="At"><xs:restriction base="xs:time"><xs:enumeration value="12:00:00"/></xs:restriction></xs:simpleType>'
+                  '<xs:element name="root"><xs:complexType><xs:sequence><xs:element name="n" type="xs:string"/></xs:sequence><xs:attribute name="r" type="t:Rate"/>'
+                  '<xs:attribute name="c" type="t:Code"/><xs:attribute name="d" type="t:Day"/><xs:attribute name="s" type="t:Span"/><xs:attribute name="a" type="t:At"/>'
+                  '</xs:complexType></xs:element></xs:schema>')
+    for k, (oname, opts, mut) in enumerate(osets):
+        generation_case(ctx, "xsd", {"h.xsd": enum_types}, ["h.xsd"], oname, opts, mut, traces, f"enum-literal-imports-{k}", must_generate=True)
     # the finding F47 is exercised by its reproducer in every run (and its counterpart, the same key naming a VALUE)
     generation_case(ctx, "json-sample", {"h.json": '{"a\\nb": {"k": 1}}'}, ["h.json"], "namespaces-camel", osets[5][1], osets[5][2], traces, "f47")
     generation_case(ctx, "json-sample", {"h.json": '{"a\\nb": 1, "c\\"d": [2]}'}, ["h.json"], "namespaces-camel", osets[5][1], osets[5][2], traces, "f47-ok")
